@@ -68,7 +68,7 @@ def run(ctx):
             # what is loaded is the type the UnknownType names: <error>.name reaches the load (directly or through a local)
             want = f"{h.name}.name"
             loads = [c for st in inner[0].body for c in ast.walk(st) if isinstance(c, ast.Call) and c.args]
-            ok = ok and any(norm(resolve_local(pw.node, c.args[0])) == want or (isinstance(c.args[0], ast.Call) and c.args[0].args and norm(resolve_local(pw.node, c.args[0].args[0])) == want) for c in loads)
+            ok = ok and any(norm(resolve_local(pw.node, x)) == want or (isinstance(x, ast.Call) and x.args and any(norm(resolve_local(pw.node, y)) == want for y in x.args)) for c in loads for x in c.args)
     ctx.check("C19.R1", "retry loop: the missing subject is error.name and a failed load re-raises that UnknownType", ok, pw.where(), f"{pw.name} handlers", "a missing file must surface as an error naming the missing type, not as a repository error about a file")
     ut = p.cls("_schema_common:UnknownType").methods["__init__"]
     ok = any(isinstance(n, ast.Assign) and norm(n) == "self.name = name" for n in walk_local(ut.node))
